@@ -42,7 +42,13 @@ def run(ctx):
                "divmod) interpreted on abstract instances with symbolic field "
                "coefficients and enumerated exponent shapes: value of the result "
                "== the operation on the values; results stay normalised")
-    ctx.decline("lcm, the FFT's arithmetic; Polynomial arithmetic across "
+    ctx.decide("fft/ifft interpreted on vectors of symbols with a symbolic root "
+               "of unity: equal to the transform's definition for every length "
+               "up to 12 (32 in the thorough tier), both signs")
+    ctx.decide("g is a *greatest* common divisor (each round is a unimodular "
+               "change of the pair, the loop ends with r == 0, g is the last "
+               "remainder up to a unit); lcm is |q*r| // gcd")
+    ctx.decline("Polynomial arithmetic across "
                 "different bases and over coefficient rings that are not fields "
                 "(see the known finding on __divmod__)")
     ctx.assume("traits.common_traits classifies operand types as documented")
@@ -263,7 +269,8 @@ def _kernels(ctx, model):
     from .. import kernels
     m, fn = model.func(f"{ALG}:integer_power")
     loc = m.loc(fn)
-    r = kernels.integer_power_rule(fn)
+    deep = ctx.tier == "thorough"
+    r = kernels.integer_power_rule(fn, max_n=64 if deep else 12)
     strength = ("for every n >= 0 (invariant acc * x**n == x0**N, n >= 0, "
                 "decreasing)") if r["proved"] else \
         f"for n = 0..{r['checked_n'][-1]} (the invariant template did not fit: " \
@@ -286,7 +293,7 @@ def _kernels(ctx, model):
            "with it is wrong")
     m, fn = model.func(f"{ALG}:extended_euclidean")
     loc = m.loc(fn)
-    r = kernels.euclid_rule(fn)
+    r = kernels.euclid_rule(fn, max_rounds=5 if deep else 3)
     ok = not r["witnesses"]
     strength = ("for every input (relations q == Q[0]*q0 + Q[1]*r0 and "
                 "r == R[0]*q0 + R[1]*r0 are kept by each round)") if r["proved"] \
@@ -298,23 +305,84 @@ def _kernels(ctx, model):
            r["witnesses"][-1][:400],
            {"proved_for_all_inputs": r["proved"], "paths": r["paths"]})
     ctx.floor("extended_euclidean: ways explored", r["paths"], 4)
+    why = kernels.euclid_gcd_rule(fn)
+    ctx.ob("P/extended_euclidean/greatest", why is None, loc,
+           "each round replaces (q, r) by a unimodular combination of it "
+           "(determinant +-1), the loop ends only with r == 0, and g is the last "
+           "non-zero remainder up to a unit: with Bezout's identity, g is a "
+           "greatest common divisor" if why is None else
+           f"g need not be a greatest common divisor: {why}")
+    # lcm and gcd are consistent: lcm(q, r) * gcd(q, r) == |q * r|
+    lm, lfn = model.func(f"{ALG}:lcm")
+    gm, gfn = model.func(f"{ALG}:gcd")
+    from ..absint import Interp, Poly, Raised
+    Qs, Rs, Gs = Poly.sym("q"), Poly.sym("r"), Poly.sym("g")
+
+    def exact_div(it_, n_, op, X, Y):
+        if isinstance(op, (ast.FloorDiv, ast.Div)) and len(Y.t) == 1:
+            return X * (Y ** -1)
+        raise AnalysisError(f"ring operation {ast.unparse(n_)}")
+    it_g = Interp(calls={"extended_euclidean": lambda it_, n_, a, k: (
+        Gs, Poly.sym("a"), Poly.sym("b")) if [Poly.lift(x) for x in a] in (
+            [Qs, Rs], [Rs, Qs]) else (_ for _ in ()).throw(
+                AnalysisError("gcd: extended_euclidean is handed other "
+                              "operands")), "<binop>": exact_div})
+    it_l = Interp(calls={
+        "gcd": lambda it_, n_, a, k: Gs if [Poly.lift(x) for x in a] in (
+            [Qs, Rs], [Rs, Qs]) else (_ for _ in ()).throw(
+                AnalysisError("lcm: gcd is handed other operands")),
+        "abs": lambda it_, n_, a, k: a[0],       # up to sign
+        "<binop>": exact_div})
+    try:
+        gv = it_g.call_function(gfn, [Qs, Rs])
+        lv = it_l.call_function(lfn, [Qs, Rs])
+    except Raised:
+        raise AnalysisError("gcd / lcm raise on symbolic operands")
+    ok_g = isinstance(gv, Poly) and gv == Gs
+    ok_l = isinstance(lv, Poly) and lv * Gs in (Qs * Rs, -(Qs * Rs))
+    U = lambda n_: ast.unparse(n_).replace(" ", "")      # noqa: E731
+    lret = [st.value for st in ast.walk(lfn) if isinstance(st, ast.Return)]
+    gret = [st.value for st in ast.walk(gfn) if isinstance(st, ast.Return)]
+    ctx.ob("P/lcm/consistent-with-gcd", ok_g and ok_l, lm.loc(lfn),
+           "gcd is the first component of extended_euclidean; lcm(q, r) * "
+           "gcd(q, r) == +-q*r (interpreted on symbols, division by the gcd "
+           "exact)" if ok_g and ok_l else
+           f"gcd(q, r) evaluates to {gv}, lcm(q, r) to {lv}: lcm * gcd is not "
+           "q*r up to sign")
     # Horner evaluation of Polynomial nodes
     ev = model.cls("pymbolic.mapper.evaluator:EvaluationMapper")
     mem = model.lookup(ev, "map_polynomial")
     if mem is None or mem.kind != "func":
         raise AnalysisError("EvaluationMapper.map_polynomial not found")
-    wit = kernels.horner_numeric_rule(mem.node)
+    hshapes = kernels.DEEP_EXPONENT_SHAPES if deep else kernels.EXPONENT_SHAPES
+    wit = kernels.horner_numeric_rule(mem.node, shapes=hshapes)
     ctx.ob("P/EvaluationMapper.map_polynomial/value", not wit,
            mem.owner.module.loc(mem.node),
-           f"evaluates to sum coeff * base**exp on {len(kernels.EXPONENT_SHAPES)}"
+           f"evaluates to sum coeff * base**exp on {len(hshapes)}"
            " exponent shapes (dense, sparse, with and without constant term)"
            if not wit else
            "map_polynomial does not evaluate to sum coeff * base**exp: " +
            "; ".join(f"exponents {e}: {got} instead of {want}"
                      for e, got, want in wit[:3]),
            {"shapes": [list(e) for e in kernels.EXPONENT_SHAPES]})
+    # FFT / inverse FFT against the transform's definition
+    wit, n_fft = kernels.fft_rule(
+        model, lengths=range(1, 33) if deep else range(1, 13))
+    fm, ffn = model.func(f"{ALG}:fft")
+    ctx.ob("P/fft/equals-the-dft-definition", not wit, fm.loc(ffn),
+           f"fft(x, sign), ifft(x) and sym_fft(x, sign) (wrappers read as their "
+           "child, the clean-up pass as the identity) on a vector of symbols equal "
+           "sum_j x_j * z**(k*j) entry by entry, as an identity modulo "
+           f"w**n == 1, for every length 1..{32 if deep else 12} (prime, "
+           f"composite, power of two) and both signs ({n_fft} transforms)"
+           if not wit else
+           "the FFT is not the discrete Fourier transform: " + "; ".join(
+               w[:240] for w in wit[:2]) +
+           (f" (and {len(wit) - 2} more)" if len(wit) > 2 else ""),
+           {"transforms": n_fft})
+    ctx.floor("FFT transforms interpreted", n_fft, 30)
     # Polynomial's own operators
-    wit, n_cases = kernels.polynomial_arith_rule(model)
+    wit, n_cases = kernels.polynomial_arith_rule(model, deep=deep)
     pc = model.cls("pymbolic.polynomial:Polynomial")
     ctx.ob("P/Polynomial/operators-homomorphic", not wit, pc.loc(),
            f"-p, p**k, p*s, s*p, p+q, p-q, p*q, divmod(p, q): the value of the "
